@@ -219,7 +219,7 @@ def shape_with_reopen(ops, rp):
 
 # ---------------------------------------------------------------- minimisation driven by the Python mirror
 
-def disagreement(cfg, ops, sizes, rp):
+def disagreement(cfg, ops, sizes, rp, _nested=False):
     """None if the implementation agrees with the (Python mirror of the) spec on this history."""
     from harness import pyspec
     run = execute(cfg, ops, sizes, rp)
@@ -228,6 +228,14 @@ def disagreement(cfg, ops, sizes, rp):
     s, outs = pyspec.run(ops, rp)
     for i, (a, b) in enumerate(zip(run.outs, outs)):
         if a != b:
+            # An edit that both sides refused must be a no-op.  If the later outcomes disagree only because such a refused
+            # edit is in the history (the history without it agrees), the refused edit left something behind: the same
+            # defect class as ('view', 'after-refused-edit') -- C14's business -- seen through a later outcome.
+            refused = [j for j in range(i) if run.outs[j] != 'ok' and outs[j] != 'ok']
+            if refused and not _nested:
+                rest = [o for j, o in enumerate(ops) if j not in refused]
+                if disagreement(cfg, rest, sizes, _map_reopen(ops, rest, rp), _nested=True) is None:
+                    return ('outcome', 'after-refused-edit')
             return ('outcome', ops[i]['k'], a, ops[i].get('why', 'valid'), i == len(ops) - 1)
     if run.view != pyspec.view(s):
         # a history in which a refused edit left something behind is C14's business: keep the two classes apart
@@ -290,7 +298,8 @@ def minimize(cfg, ops, sizes, rp, want=None):
                 cur = cur[:i + 1]
                 rp = [q for q in rp if q <= i]
                 break
-        want = want[:4] + (True,)
+        if want[1:2] != ('after-refused-edit',):
+            want = want[:4] + (True,)
     # 1. drop edits (last edit is kept for outcome disagreements)
     changed = True
     budget = 400
